@@ -337,7 +337,7 @@ def shard(ctx, budget_s):
         boundary_cookies(ctx)
     n = 0
     while time.time() < deadline or n == 0:
-        cfg = gen.rnd_config(rng, deny=False, logger="n", level=0)
+        cfg = gen.rnd_config(rng, deny=False, logger=rng.choice("nnnncl"), level=rng.choice([0, 0, 2, 3, 4, 5]))
         ctx.case(cfg)
         model, cookies = Model(), {}
         for _ in range(20):
